@@ -49,5 +49,13 @@ Example old_ts_counterexamples_repaired :
   lexical_headers_of LTypeScript old_ts_ctrl = [] /\ lexical_headers_of LTypeScript old_ts_arrow = [mkHeader 0 0 10].
 Proof. vm_compute. split; reflexivity. Qed.
 
+(* why io_init requires pre <> []: an initialiser statement that starts with "{" would abut a function body;
+   f ( ) { } { } ;  — a header at f, and the block after the body is no part of the function *)
+Definition cex_abut : list token :=
+  toks [(1,[102]);(2,[40]);(2,[41]);(2,[123]);(2,[125]);(2,[123]);(2,[125]);(2,[59])]%Z.
+Example cex_abut_facts :
+  lexical_headers_of LC cex_abut = [mkHeader 0 0 3] /\ sym_at cex_abut 4 rbrace = true /\ sym_at cex_abut 5 lbrace = true.
+Proof. vm_compute. repeat split; reflexivity. Qed.
+
 Print Assumptions cex_java_header.
 Print Assumptions cex_ts_type_no_header.
